@@ -3,7 +3,7 @@ CONSTANTS N = 2
           AdfSetKind = "all"
           TwoValMode = FALSE
           Contract = TRUE
-          FixedFoldC = FALSE
+          FixedFoldC = TRUE
 INVARIANTS Exact Safe LockStep Bounded StoreSound
 VIEW View
 CHECK_DEADLOCK FALSE
